@@ -1,9 +1,9 @@
 package main
 
 import (
-	"go/types"
 	"fmt"
 	"go/token"
+	"go/types"
 	"sort"
 	"strings"
 
@@ -24,23 +24,23 @@ import (
 // registered elsewhere or is deliberately never renamed are in a reviewed table (one reason each).
 
 var c15SymbolRegisteredExceptions = ExcTable{
-	"js_parser.(*parser).declareSymbol newSymbol(?)":                       "the symbol is allocated before the collision check; on the merge paths (keep existing / forbidden) the existing symbol's ref is returned and the fresh one is never referenced by any node",
-	"js_parser.(*parser).findSymbol newSymbol(SymbolOther)":                          "lazily generated alias for a sibling TypeScript namespace member: carries a NamespaceAlias and is always printed as the property access ns.name, never as an identifier of its own; the unbound-symbol allocation in the same function is registered in moduleScope.Members",
-	"js_parser.(*parser).findLabelSymbol newSymbol(SymbolUnbound)":                     "error path only ('There is no containing label named ...' was just logged): the build fails, nothing is printed",
-	"js_parser.(*parser).visitAndAppendStmt newSymbol(SymbolLabel)":                  "label symbol: labels live in their own namespace (ScopeLabel.Label), are reached by the renamers through Scope.Label and can never capture or be captured by a variable",
-	"js_parser.(*parser).makePromiseRef newSymbol(SymbolUnbound) \"Promise\"":          "unbound global used only by the import(non-string) lowering, which also imports __toESM from the runtime; the runtime module's own scope always holds the unbound symbol Promise (the __async helper), which reserves the name for every chunk that contains it",
-	"js_parser.(*parser).parseClassExpr newSymbol(SymbolOther)":                      "class expression name: visitClass registers the inner class name symbol under this name in the class-name scope's Members and merges it into this symbol (MergeSymbols), so the renamers reach it through that member",
-	"js_parser.(*parser).parseFnExpr newSymbol(SymbolHoistedFunction)":                         "function expression named `arguments`: the binding is shadowed by the implicit arguments object and cannot be referenced; all other function expression names go through declareSymbol",
-	"js_parser.(*parser).parseProperty newSymbol(SymbolOther)":                       "getter/setter function names of a lowered private auto-accessor: kept in p.privateGetters / p.privateSetters and declared as top-level or temp symbols by the class lowering that emits them (lowerPrivateMethod registers the refs it emits)",
-	"js_parser.(*parser).prepareForVisitPass newSymbol(SymbolUnbound) \"require\"":     "pass-through mode: `require` must print as written and is never renamed; in bundling modes the symbol is declared through declareCommonJSSymbol",
-	"js_parser.(*parser).prepareForVisitPass newSymbol(SymbolHoisted) \"exports\"":     "ESM-style file: the ref is handed to the linker as AST.ExportsRef, which declares it as a top-level symbol of the file's wrapper/exports part; files with CommonJS-style exports go through declareCommonJSSymbol",
-	"js_parser.(*parser).prepareForVisitPass newSymbol(SymbolHoisted) \"module\"":      "ESM-style file: handed to the linker as AST.ModuleRef (see exports)",
-	"js_parser.(*parser).symbolForMangledProp newSymbol(SymbolMangledProp)":                "SymbolMangledProp is a property name, not a binding: it is named by the mangle-props pass, never by the scope renamers",
-	"js_parser.(*parser).toAST newSymbol(SymbolOther)":                               "the file's wrapper symbol (require_x / init_x): handed to the linker as AST.WrapperRef, which declares it as a top-level symbol of the wrapper part",
-	"js_parser.(*parser).visitClass newSymbol(SymbolConst)":                          "inner class name of an anonymous class (`_this` / `_file_default`): declared through recordDeclaredSymbol; it is only printed if the class is given that name at top level (a declared top-level symbol of the part) or replaced by a temp ref in nested scopes; named classes register the symbol in Members in the same function",
-	"js_parser.(*lowerClassContext).processProperties newSymbol(?)":        "storage name of a lowered auto-accessor: a private name flagged PrivateSymbolMustBeLowered, always lowered to a WeakMap and never printed as #name",
-	"js_parser.LazyExportAST newSymbol(SymbolUnbound)":                                 "unbound global of a lazy-export helper call in a synthetic one-expression file that has no bindings of its own",
-	"js_parser.Parse newSymbol(SymbolInjected)":                                         "injected export with a dotted alias (`a.b.c`): matched through p.injectedDotNames and the symbol for the whole dotted name is imported like any injected symbol; identifier aliases are registered in moduleScope.Members in the same function",
+	"js_parser.(*parser).declareSymbol newSymbol(?)":                               "the symbol is allocated before the collision check; on the merge paths (keep existing / forbidden) the existing symbol's ref is returned and the fresh one is never referenced by any node",
+	"js_parser.(*parser).findSymbol newSymbol(SymbolOther)":                        "lazily generated alias for a sibling TypeScript namespace member: carries a NamespaceAlias and is always printed as the property access ns.name, never as an identifier of its own; the unbound-symbol allocation in the same function is registered in moduleScope.Members",
+	"js_parser.(*parser).findLabelSymbol newSymbol(SymbolUnbound)":                 "error path only ('There is no containing label named ...' was just logged): the build fails, nothing is printed",
+	"js_parser.(*parser).visitAndAppendStmt newSymbol(SymbolLabel)":                "label symbol: labels live in their own namespace (ScopeLabel.Label), are reached by the renamers through Scope.Label and can never capture or be captured by a variable",
+	"js_parser.(*parser).makePromiseRef newSymbol(SymbolUnbound) \"Promise\"":      "unbound global used only by the import(non-string) lowering, which also imports __toESM from the runtime; the runtime module's own scope always holds the unbound symbol Promise (the __async helper), which reserves the name for every chunk that contains it",
+	"js_parser.(*parser).parseClassExpr newSymbol(SymbolOther)":                    "class expression name: visitClass registers the inner class name symbol under this name in the class-name scope's Members and merges it into this symbol (MergeSymbols), so the renamers reach it through that member",
+	"js_parser.(*parser).parseFnExpr newSymbol(SymbolHoistedFunction)":             "function expression named `arguments`: the binding is shadowed by the implicit arguments object and cannot be referenced; all other function expression names go through declareSymbol",
+	"js_parser.(*parser).parseProperty newSymbol(SymbolOther)":                     "getter/setter function names of a lowered private auto-accessor: kept in p.privateGetters / p.privateSetters and declared as top-level or temp symbols by the class lowering that emits them (lowerPrivateMethod registers the refs it emits)",
+	"js_parser.(*parser).prepareForVisitPass newSymbol(SymbolUnbound) \"require\"": "pass-through mode: `require` must print as written and is never renamed; in bundling modes the symbol is declared through declareCommonJSSymbol",
+	"js_parser.(*parser).prepareForVisitPass newSymbol(SymbolHoisted) \"exports\"": "ESM-style file: the ref is handed to the linker as AST.ExportsRef, which declares it as a top-level symbol of the file's wrapper/exports part; files with CommonJS-style exports go through declareCommonJSSymbol",
+	"js_parser.(*parser).prepareForVisitPass newSymbol(SymbolHoisted) \"module\"":  "ESM-style file: handed to the linker as AST.ModuleRef (see exports)",
+	"js_parser.(*parser).symbolForMangledProp newSymbol(SymbolMangledProp)":        "SymbolMangledProp is a property name, not a binding: it is named by the mangle-props pass, never by the scope renamers",
+	"js_parser.(*parser).toAST newSymbol(SymbolOther)":                             "the file's wrapper symbol (require_x / init_x): handed to the linker as AST.WrapperRef, which declares it as a top-level symbol of the wrapper part",
+	"js_parser.(*parser).visitClass newSymbol(SymbolConst)":                        "inner class name of an anonymous class (`_this` / `_file_default`): declared through recordDeclaredSymbol; it is only printed if the class is given that name at top level (a declared top-level symbol of the part) or replaced by a temp ref in nested scopes; named classes register the symbol in Members in the same function",
+	"js_parser.(*lowerClassContext).processProperties newSymbol(?)":                "storage name of a lowered auto-accessor: a private name flagged PrivateSymbolMustBeLowered, always lowered to a WeakMap and never printed as #name",
+	"js_parser.LazyExportAST newSymbol(SymbolUnbound)":                             "unbound global of a lazy-export helper call in a synthetic one-expression file that has no bindings of its own",
+	"js_parser.Parse newSymbol(SymbolInjected)":                                    "injected export with a dotted alias (`a.b.c`): matched through p.injectedDotNames and the symbol for the whole dotted name is imported like any injected symbol; identifier aliases are registered in moduleScope.Members in the same function",
 }
 
 func c15SymbolRegistered(p *Prog) *RuleResult {
